@@ -26,6 +26,7 @@ func (m *patternMatcher) reset(si int) {
 
 func (m *patternMatcher) find() []Capture {
 	for si := m.si; si <= len(m.s); si++ {
+		m.consumeBudget() // trying a start position is work, even if nothing matches
 		m.reset(si)
 		if captures := m.matchToEnd(); captures != nil {
 			return captures
@@ -58,6 +59,9 @@ func (m *patternMatcher) matchToEnd() []Capture {
 
 func (m *patternMatcher) match() {
 	for m.pi < len(m.items) {
+		// Every pattern item processed is work, whether or not it consumes a
+		// byte of the subject (failed tests, zero-width items, backtracking).
+		m.consumeBudget()
 		switch item := m.items[m.pi]; item.ptnType {
 		case ptnOnce:
 			if !m.matchNext(item.bytes) {
